@@ -8,13 +8,13 @@ Local Open Scope nat_scope.
 
 Ltac rst := cbn [write read1 read2 slots wpc rpc nw n1 n2 wseq rseq recv
                  set_slots set_slot set_counts set_wpc set_rpc add_recv
-                 mark payload slept rlock tk parked1 woken1 bc wt wparked wwoken fillseq
-                 sl_lists sl_fill sl_mark sl_writer sl_rlock] in *.
+                 mark payload pm c_one c_multi c_resps slept rlock tk parked1 woken1 bc wt wparked wwoken fillseq
+                 sl_lists sl_fill sl_mark sl_clear sl_writer sl_rlock] in *.
 
 Definition progress (st : state) (l : label) (st' : state) : Prop :=
   match l with
   | PutTicket => False
-  | PutLock p s => length (fillseq (slots st' s)) = S (length (fillseq (slots st s)))
+  | PutLock p s _ => length (fillseq (slots st' s)) = S (length (fillseq (slots st s)))
   | PutBcast _ _ => True
   | WNext | WWaitEnter | WWaitRetry => n1 st' = S (n1 st)
   | RNext => n2 st' = S (n2 st)
@@ -28,11 +28,11 @@ Variable start : N.
 Notation sof := (sof k start).
 Notation cntpos := (cntpos k start).
 
-Lemma fill_enabled : forall st s p, mark (slots st s) = 0 -> rlock (slots st s) = false ->
+Lemma fill_enabled : forall st s p m, mark (slots st s) = 0 -> rlock (slots st s) = false ->
   (memb p (tk (slots st s)) = true \/ memb p (woken1 (slots st s)) = true) ->
-  exists st', lstep k st (PutLock p s) = Some st' /\ progress st (PutLock p s) st'.
+  exists st', lstep k st (PutLock p s m) = Some st' /\ progress st (PutLock p s m) st'.
 Proof.
-  intros st s p Hm Hr Hp. cbn [lstep]. rewrite Hr. cbn [negb andb].
+  intros st s p m Hm Hr Hp. cbn [lstep]. rewrite Hr. cbn [negb andb].
   assert (G : memb p (tk (slots st s)) || memb p (woken1 (slots st s)) = true) by (apply orb_true_iff; exact Hp).
   rewrite G. set (x := slots st s) in *.
   remember (if memb p (tk x) then sl_lists x (remove1 p (tk x)) (parked1 x) (woken1 x) (bc x) (wt x)
@@ -90,8 +90,8 @@ Proof.
       * exfalso. cbn [length] in Hpend.
         assert (Hp : parked1 (slots st s) <> []) by (destruct (parked1 (slots st s)); [cbn [length] in Hpend; lia|discriminate]).
         destruct (w_l1 _ W s Hp) as [X|[X|[X|X]]]; try congruence; try (rewrite (Hfree s) in X; discriminate).
-      * exists (PutLock p s). apply fill_enabled; [exact C1|apply Hfree|]. right. rewrite Hwk. apply memb_head.
-    + exists (PutLock p s). apply fill_enabled; [exact C1|apply Hfree|]. left. rewrite Htk. apply memb_head.
+      * exists (PutLock p s false). apply fill_enabled; [exact C1|apply Hfree|]. right. rewrite Hwk. apply memb_head.
+    + exists (PutLock p s false). apply fill_enabled; [exact C1|apply Hfree|]. left. rewrite Htk. apply memb_head.
   - (* the command of position n1+1 is there: the writer takes it (or is being woken) *)
     destruct (wpc st) as [|s'] eqn:Hw.
     + exists WNext. cbn [lstep]. rewrite Hw. destruct (next_read1 _ _ st A Hw) as [R1 R2]. rewrite R1.
